@@ -17,7 +17,7 @@ MANIFEST = dict(
          "liveness property EventuallyDelivered over all interleavings of begin / finish / cancel-caller / advance / "
          "loop-run, including cancellation between the end of the invocation and the waiter's wake-up and expiry or "
          "eviction of the entry in flight; every edge is replayed into the real decorator with gated invocations "
-         "that record whether they ever saw a CancelledError.",
+         "that record whether they ever saw a CancelledError. Callers also arrive in the gap between an invocation's end and the scheduled wake-ups of its waiters.",
     technique="TLA+ spec + TLC exhaustive model checking incl. liveness; edge-complete graph replay into the "
               "implementation on a deterministic virtual-time loop",
     design="5/C13")
